@@ -25,11 +25,33 @@ def run(ctx) -> None:
     ctx.analysed(f)
     ctx.rule("R35a", "no path through the merge loop drops an entry")
     ctx.rule("R35b", "merge only equal message+severity; fresh entry has count 1")
+    # the per-entry loop: a `for <entry> in <parameter>.entries` in aggregate_with or in a helper of the class it calls
+    cls_ = f.cls
+    cands = []
+    for m in cls_.methods.values():
+        params = {a.arg for a in m.node.args.args}
+        for lp_ in walk_no_nested(m.node):
+            if isinstance(lp_, ast.For) and isinstance(lp_.iter, ast.Attribute) and lp_.iter.attr == "entries" \
+                    and isinstance(lp_.iter.value, ast.Name) and lp_.iter.value.id in params and lp_.iter.value.id != "self":
+                cands.append((m, lp_))
+    # every change of an occurrence count in the class must happen inside such a loop, one per incoming entry
+    for m in cls_.methods.values():
+        for n_ in ast.walk(m.node):
+            if isinstance(n_, ast.AugAssign) and isinstance(n_.target, ast.Attribute) and n_.target.attr == "occurrences":
+                inside = any(mm is m and any(x is n_ for x in ast.walk(lp_)) for mm, lp_ in cands)
+                by_one = isinstance(n_.value, ast.Constant) and n_.value.value == 1 and isinstance(n_.op, ast.Add)
+                if not inside or not by_one:
+                    ctx.fail("R35b", m, n_, f"{m.short}: {canon_text(n_, m)} counts one incoming entry inside the per-entry loop",
+                             "an occurrence count is changed " + ("outside the loop over the incoming entries" if not inside else "") +
+                             (" and " if not inside and not by_one else "") + ("by something other than one" if not by_one else "") +
+                             ": repeats are no longer accounted entry by entry, so a redelivered (equal-time) or earlier entry inside "
+                             "a pre-aggregated group is counted as a new occurrence")
+    if len(cands) != 1:
+        raise AnchorError(f"AggregatedErrorLog: expected one loop over the incoming entries, found {len(cands)}")
+    f, lp_ast = cands[0]
+    ctx.analysed(f)
     g = cfg_of(f)
-    loops = [n for n in g.nodes if n.kind == "for" and "entries" in norm(n.ast.iter)]
-    if len(loops) != 1:
-        raise AnchorError("aggregate_with: expected one loop over error_log.entries")
-    lp = loops[0]
+    lp = next(n for n in g.nodes if n.kind == "for" and n.ast is lp_ast)
     entry = norm(lp.ast.target)
 
     def accounts(n) -> bool:
@@ -37,6 +59,14 @@ def run(ctx) -> None:
             return False
         if any(call_attr(c) == "append" and "entries" in norm(c.func) for c in n.calls()):
             return True
+        # appended to a result list as a fresh aggregated entry built from this entry
+        for c in n.calls():
+            if call_attr(c) == "append" and c.args and isinstance(c.args[0], ast.Name):
+                d = [x for x in ast.walk(f.node) if isinstance(x, ast.Assign) and isinstance(x.targets[0], ast.Name)
+                     and x.targets[0].id == c.args[0].id and isinstance(x.value, ast.Call) and call_attr(x.value) == "from_entry"
+                     and [norm(a) for a in x.value.args] == [entry]]
+                if d:
+                    return True
         a = n.ast
         if isinstance(a, ast.AugAssign) and isinstance(a.target, ast.Attribute) and a.target.attr == "occurrences" \
                 and isinstance(a.op, ast.Add):
